@@ -397,7 +397,9 @@ _ENC_BOUNDARY = (c2.TensorNetwork2D.contract_boundary, c2.TensorNetwork2D._contr
                  tc.tensor_make_single_bond, tc.TensorNetwork.contract_between, tc.TensorNetwork.insert_gauge,
                  decomp.similarity_compress)
 
-_CERT = dict(rounds=2, wall_s=500, timeout_s=600, max_rows=60000, solver_timeout_ms=200000)
+# an exception of the real code on these (documented, accepted on the unchanged tree) inputs means the scheme does
+# not return: a violation, not a harness problem
+_CERT = dict(rounds=2, wall_s=500, timeout_s=600, max_rows=60000, solver_timeout_ms=200000, exc_is_violation=True)
 
 
 @obligation(PROP, params=_bx_params(), **_CERT)
@@ -436,6 +438,10 @@ def boundary_exact_options(mk, shape, seq, opt, pattern, cap):
                c1c.tensor_network_1d_compress_fit, tc.TensorNetwork.strip_exponent, tc.TensorNetwork.equalize_norms)
     Lx, Ly = shape
     tn = lattice2d(mk, Lx, Ly, pattern, kind="real", numkind="cplx")
+    if opt in ("mps-eq", "mps-eq1", "mps-strip", "dm"):
+        # the network arrives with a stored exponent: it is part of the value
+        e = mk.scalar("e0", "real")
+        tn.exponent = e if mk.sym else float(e)
     want = exact(tn)
     _bx_goal(mk, tn, want, cap, seq, opt)
 
@@ -600,7 +606,7 @@ def _cap_step_params():
     return out
 
 
-@obligation(PROP, params=_cap_step_params(), wall_s=500, timeout_s=600, max_paths=64)
+@obligation(PROP, params=_cap_step_params(), wall_s=500, timeout_s=600, max_paths=64, exc_is_violation=True)
 def boundary_cap_steps(mk, side, opt, chi):
     """a truncating sweep (chi below the exact boundary bond, cutoff 0) done step by step with
     contract_boundary_from_: after EVERY step no pair of tensors shares more than chi"""
@@ -694,7 +700,7 @@ def _cap_driver_params():
     return out
 
 
-@obligation(PROP, params=_cap_driver_params(), wall_s=500, timeout_s=600, max_paths=64)
+@obligation(PROP, params=_cap_driver_params(), wall_s=500, timeout_s=600, max_paths=64, exc_is_violation=True)
 def boundary_cap_driver(mk, shape, seq, extra, opt, chi):
     """contract_boundary(final_contract=False) with a truncating cap: the network handed over has
     the documented number of lines left and no pair of its tensors shares more than chi"""
@@ -785,7 +791,7 @@ def _lay_cap_params():
     return out
 
 
-@obligation(PROP, params=_lay_cap_params(), wall_s=500, timeout_s=600, max_paths=64)
+@obligation(PROP, params=_lay_cap_params(), wall_s=500, timeout_s=600, max_paths=64, exc_is_violation=True)
 def layered_cap(mk, side, layers, opt, chi):
     """two-layer network, truncating cap, step by step from each side: after every step (all layers
     absorbed) no pair of tensors shares more than chi"""
@@ -816,6 +822,14 @@ def layered_cap(mk, side, layers, opt, chi):
 
 # ---------------------------------------------------------------------- row / column environments
 
+def closed_eq(mk, label, full, want):
+    """goal: the combined network has no dangling label and contracts to `want`"""
+    outer = tuple(full.outer_inds())
+    mk.same(label + " [no dangling labels]", outer, ())
+    if not outer:
+        mk.eq(label, exact(full), want)
+
+
 def _lines(tn, side, idxs):
     """the tensors of the lattice lines `idxs` (rows for x sides, columns for y sides) as a network"""
     tags = [tn.x_tag(i) if side[0] == "x" else tn.y_tag(i) for i in idxs]
@@ -839,7 +853,7 @@ def env_goals(mk, tn, envs, side, want, label, lo=0, hi=None, rest=None):
         if rest is not None:
             parts.append(rest)
         full = qtn.TensorNetwork(parts)
-        mk.eq(f"{label}: ({side}, {i}) environment | excluded lines == whole network", exact(full), want)
+        closed_eq(mk, f"{label}: ({side}, {i}) environment | excluded lines == whole network", full, want)
 
 
 def _env_params():
@@ -849,13 +863,17 @@ def _env_params():
             depth = shape[0] if side[0] == "x" else shape[1]
             if depth < 3:
                 continue
-            for opt in ("mps", "mps-nocanon", "full-bond", "dense", "direct"):
+            for opt in ("mps", "mps-nocanon", "full-bond", "dense", "direct", "mps-eq1", "dense-eq1"):
                 for pattern in ("all", "along"):
                     if shape in ((3, 3), (4, 3)) and pattern == "all":
                         continue
                     if shape == (4, 3) and opt not in ("mps", "dense"):
                         continue
                     q = shape in ((3, 2), (2, 3)) and pattern == "all" and opt in ("mps", "full-bond", "dense")
+                    if opt.endswith("eq1") and pattern == "all":
+                        continue
+                    if opt.endswith("eq1") and shape in ((3, 2), (2, 3)) and side in ("xmin", "ymax"):
+                        q = True
                     out.append({"shape": shape, "side": side, "opt": opt, "pattern": pattern, "_tiers": _Q if q else _T})
     return out
 
@@ -872,10 +890,19 @@ def environments_one_side(mk, shape, side, opt, pattern):
     want = exact(tn)
     depth = Lx if side[0] == "x" else Ly
     cap = 2 ** (depth - 1)
-    kw = dict(dense=True) if opt == "dense" else dict(OPTS2D[opt])
+    kw = dict(dense=True) if opt == "dense" else (dict(dense=True, equalize_norms=1.0) if opt == "dense-eq1" else dict(OPTS2D[opt]))
+    rest = None
+    if opt.endswith("eq1"):
+        # the network arrives with a stored exponent; documented: the environments only accumulate the exponent
+        # generated by the contraction, the caller multiplies the stored one back in
+        e = mk.scalar("e0", "real")
+        tn.exponent = e if mk.sym else float(e)
+        want = exact(tn)
+        rest = qtn.TensorNetwork([])
+        rest.exponent = tn.exponent
     envs = getattr(tn, f"compute_{side}_environments")(max_bond=cap, cutoff=0.0, **kw)
     mk.same("keys", sorted(envs), sorted((side, i) for i in range(depth)))
-    env_goals(mk, tn, envs, side, want, f"compute_{side}_environments(max_bond={cap}, cutoff=0.0, {opt})")
+    env_goals(mk, tn, envs, side, want, f"compute_{side}_environments(max_bond={cap}, cutoff=0.0, {opt})", rest=rest)
     mk.eq("the network itself is left alone", exact(tn), want)
     if opt == "mps":
         # the same through the generic entry point, into a caller-supplied dict
@@ -885,8 +912,8 @@ def environments_one_side(mk, shape, side, opt, pattern):
         first = 0 if side.endswith("min") else depth - 1
         mk.same("the outermost environment is empty", store[side, first].num_tensors, 0)
         last = depth - 1 if side.endswith("min") else 0
-        mk.eq("generic entry point: innermost environment | last line == whole",
-              exact(qtn.TensorNetwork([store[side, last], _lines(tn, side, [last])])), want)
+        closed_eq(mk, "generic entry point: innermost environment | last line == whole",
+                  qtn.TensorNetwork([store[side, last], _lines(tn, side, [last])]), want)
 
 
 def _env_both_params():
@@ -921,8 +948,8 @@ def environments_sandwich(mk, shape, plane, opt, pattern):
     mk.same("keys", sorted(envs), sorted((plane + m, i) for m in ("min", "max") for i in range(depth)))
     for i in range(depth):
         full = qtn.TensorNetwork([envs[plane + "min", i], _lines(tn, plane + "min", [i]), envs[plane + "max", i]])
-        mk.eq(f"compute_{plane}_environments(max_bond={cap}, cutoff=0.0, {opt}): envs[{plane}min, {i}] | line {i} | envs[{plane}max, {i}] == whole",
-              exact(full), want)
+        closed_eq(mk, f"compute_{plane}_environments(max_bond={cap}, cutoff=0.0, {opt}): envs[{plane}min, {i}] | line {i} | envs[{plane}max, {i}] == whole",
+                  full, want)
 
 
 # ---------------------------------------------------------------------- plaquette environments
@@ -941,7 +968,7 @@ def plaquette_goals(mk, tn, penvs, bx, by, want, label):
         (i0, j0), _ = key
         inner = tn.select_any([tn.site_tag(*s) for s in _plaq_sites(i0, j0, bx, by)])
         full = qtn.TensorNetwork([penvs[key], inner])
-        mk.eq(f"{label}: environment {key} | its plaquette == whole network", exact(full), want)
+        closed_eq(mk, f"{label}: environment {key} | its plaquette == whole network", full, want)
 
 
 def _plaq_params():
@@ -1107,6 +1134,10 @@ CC_OPTS = {
 
 def _cc_params():
     out = []
+    for geom in ("ladder6", "prism6"):
+        for chi in (2, 3):
+            for opt in ("default", "late", "basic", "tg2", "span-all", "nomat", "gauges"):
+                out.append({"geom": geom, "chi": chi, "opt": opt, "_tiers": _T})
     for geom in ("ring4", "chord4", "full4", "ring4open", "tree5"):
         for chi in (2, 4, None):
             for opt in CC_OPTS:
@@ -1131,7 +1162,7 @@ def contract_compressed_all_paths(mk, geom, chi, opt):
                tc.maybe_unwrap, decomp.compute_oblique_projectors)
     if mk.sym and opt == "gauges-all":
         return _numeric_only(mk, "gauge_all_simple iterates to a numerical tolerance")
-    if mk.sym and ((geom in ("chord4", "full4", "ring4open") and chi == 2) or (geom == "full4" and chi == 4)):
+    if mk.sym and ((geom in ("chord4", "full4", "ring4open", "ladder6", "prism6") and chi in (2, 3)) or (geom == "full4" and chi == 4)):
         return _numeric_only(mk, "rank-2 compressions of merged tensors (2 x 2 SVD / chained QR with absorbed square roots): "
                                  "no certificate within the engine's degree bound")
     tn, out = graph_tn(mk, geom, kind="real", numkind="cplx")
@@ -1146,11 +1177,45 @@ def contract_compressed_all_paths(mk, geom, chi, opt):
         paths = paths[:: max(1, len(paths) // 12)][:12]
     kw = dict(CC_OPTS[opt])
     nexact = 0
+    early = chi is not None and not any(k in kw for k in ("compress_late", "compress_span", "compress_matrices", "compress_min_size", "gauges"))
     for p in each(mk, "path", paths):
         w = Watch()
-        res = tn.contract_compressed(optimize=p, max_bond=chi, cutoff=0.0, output_inds=out or None, **w.kw(), **kw)
+        # early compression (the default): after every step every bond of the new intermediate is within the cap,
+        # except the bond to the tensor it is contracted with next (compress_span=True leaves that one alone)
+        groups = [frozenset([f"I{i}"]) for i in range(n)]
+        nexts = []
+        for i, j in p:
+            i, j = sorted((i, j))
+            b_ = groups.pop(j)
+            a_ = groups.pop(i)
+            nexts.append((a_, b_))
+            groups.append(a_ | b_)
+        step = [0]
+        over = []
+
+        def after_step(net, tid, nexts=nexts, step=step, over=over):
+            step[0] += 1
+            t = net.tensor_map[tid]
+            mine = frozenset(x for x in t.tags if x.startswith("I"))
+            nxt = nexts[step[0]] if step[0] < len(nexts) else None
+            for tidn in net._get_neighbor_tids(tid):
+                tnb = net.tensor_map[tidn]
+                theirs = frozenset(x for x in tnb.tags if x.startswith("I"))
+                if nxt is not None and {mine, theirs} == set(nxt):
+                    continue
+                sz = 1
+                for ix in t.inds:
+                    if ix in tnb.inds:
+                        sz *= t.ind_size(ix)
+                if sz > chi:
+                    over.append((step[0], sz))
+
+        extra_cb = dict(callback=after_step) if early else {}
+        res = tn.contract_compressed(optimize=p, max_bond=chi, cutoff=0.0, output_inds=out or None, **w.kw(), **extra_cb, **kw)
         for l, b, r in w.post:
             mk.same(f"path {p}: a bond just compressed is within the cap {chi}", max(b, chi), chi)
+        if early:
+            mk.same(f"path {p}: after every step the new intermediate's bonds (except to its next partner) are within the cap {chi}", over, [])
         if not w.rank_safe(chi):
             continue                # a genuinely truncating compression happened on this path: exactness is not promised
         nexact += 1
@@ -1337,7 +1402,7 @@ def compress_between_exact(mk, opt, cap):
 
 
 @obligation(PROP, params=[{"opt": o, "chi": c, "_tiers": _Q if (o in ("basic", "virtual-tree", "full-bond") and c == 1) else _T}
-                          for o in CB_OPTS for c in (1, 2, 3)], wall_s=300, timeout_s=400, max_paths=64)
+                          for o in CB_OPTS for c in (1, 2, 3)], wall_s=300, timeout_s=400, max_paths=64, exc_is_violation=True)
 def compress_between_cap(mk, opt, chi):
     """compress_between on a double bond (2 x 2 = 4) with a truncating cap and cutoff 0: afterwards the
     two tensors share a single bond of size <= chi, whatever the local gauge choice"""
@@ -1446,6 +1511,8 @@ def ag_compress_exact(mk, geom, opt, cap):
                agc.tensor_network_ag_compress_l2bp, tc.TensorNetwork.compress_all, tc.TensorNetwork._compress_between_tids)
     if mk.sym and opt in _AG_NUMERIC_ONLY:
         return _numeric_only(mk, _AG_NUMERIC_ONLY[opt])
+    if mk.sym and cap is None and geom != "pair2":
+        return _numeric_only(mk, "no cap: full (untruncated) SVDs of every bond, certificate out of reach")
     pattern = {((0, 1), "A"): 2, ((0, 1), "B"): 2}
     tn, out, sites = two_layer_tn(mk, geom, kind="real", numkind="cplx", pattern=pattern)
     want = exact(tn, out)
@@ -1459,7 +1526,7 @@ def ag_compress_exact(mk, geom, opt, cap):
 
 
 @obligation(PROP, params=[{"geom": g, "opt": o, "chi": c, "_tiers": _Q if (g == "ring3" and c == 3 and "nocanon" in o) else _T}
-                          for g in ("path3", "ring3", "ring4") for o in AG_OPTS for c in (1, 2, 3)], wall_s=300, timeout_s=400, max_paths=64)
+                          for g in ("path3", "ring3", "ring4") for o in AG_OPTS for c in (1, 2, 3)], wall_s=300, timeout_s=400, max_paths=64, exc_is_violation=True)
 def ag_compress_cap(mk, geom, opt, chi):
     """tensor_network_ag_compress with a truncating cap (below the product bond 4) and cutoff 0: afterwards
     no two tensors share more than chi"""
@@ -1627,7 +1694,7 @@ def _pcap_params():
     return out
 
 
-@obligation(PROP, params=_pcap_params(), wall_s=500, timeout_s=600, max_paths=64)
+@obligation(PROP, params=_pcap_params(), wall_s=500, timeout_s=600, max_paths=64, exc_is_violation=True)
 def projector_schemes_cap(mk, scheme, arg, opt, chi):
     """coarse_grain_hotrg / contract_hotrg / contract_ctmrg with a truncating cap and cutoff 0: in the network
     handed over every bond across a compressed cut is <= chi (lazy: the bond of every projector pair), the
@@ -1772,7 +1839,7 @@ def boundary3d_exact(mk, side, opt):
 
 
 @obligation(PROP, params=[{"side": d, "opt": o, "chi": c, "_tiers": _Q if (o in ("peps", "projector3d") and c == 3 and d in ("xmin", "zmax")) else _T}
-                          for d in _DIRS3 for o in OPTS3D for c in (3, 2)], wall_s=500, timeout_s=600, max_paths=64)
+                          for d in _DIRS3 for o in OPTS3D for c in (3, 2)], wall_s=500, timeout_s=600, max_paths=64, exc_is_violation=True)
 def boundary3d_cap(mk, side, opt, chi):
     """3D boundary contraction with a truncating cap (below the merged plane bond 4), cutoff 0, handed over
     with final_contract=False: no two tensors share more than chi"""
@@ -1867,7 +1934,7 @@ def _line_cap_goal(mk, label, res, line_tags, chi):
 @obligation(PROP, params=[{"cyclic": c, "side": d, "call": k, "chi": x, "_tiers": _Q if (k == "projector2d" and x == 3 and (c, d) in (("y", "xmin"), ("x", "ymax"))) else _T}
                           for c in _CYC for d in _DIRS for k in ("projector2d", "ctmrg", "hotrg", "mps", "direct") for x in (3, 2)
                           if not (k == "hotrg" and d.endswith("max"))
-                          and not (k in ("mps", "direct") and ("y" if d[0] == "x" else "x") in c)], wall_s=500, timeout_s=600, max_paths=64)
+                          and not (k in ("mps", "direct") and ("y" if d[0] == "x" else "x") in c)], wall_s=500, timeout_s=600, max_paths=64, exc_is_violation=True)
 def periodic_cap(mk, cyclic, side, call, chi):
     """periodic lattices, truncating cap, cutoff 0: every bond inside the boundary line that is handed over
     (including the periodic one where the line is a ring) is <= chi.  The 'mps' / 'direct' cores treat the line as
@@ -1985,7 +2052,7 @@ def layered_environments(mk, shape, pattern, what, layers, opt):
         envs = getattr(norm, f"compute_{plane}_environments")(max_bond=64, cutoff=0.0, **kw)
         for i in range(depth):
             full = qtn.TensorNetwork([envs[plane + "min", i], _lines(norm, plane + "min", [i]), envs[plane + "max", i]])
-            mk.eq(f"two layers, compute_{plane}_environments(layer_tags={_LAYERS[layers]}, {opt}): sandwich of line {i} == <psi|psi>", exact(full), want)
+            closed_eq(mk, f"two layers, compute_{plane}_environments(layer_tags={_LAYERS[layers]}, {opt}): sandwich of line {i} == <psi|psi>", full, want)
         env_goals(mk, norm, envs, plane + "min", want, "two layers, one side")
     else:
         bx, by = int(what[4]), int(what[5])
